@@ -1,21 +1,27 @@
 use crate::engine::{Ctx, DynSub};
 
-pub mod c01;
-pub mod c06;
-pub mod c19;
-
 pub struct Property {
     pub id: &'static str,
     pub run: fn(&Ctx),
     pub subs: fn() -> Vec<Box<dyn DynSub>>,
 }
 
-pub fn registry() -> Vec<Property> {
-    vec![
-        Property { id: "C01", run: c01::run, subs: c01::subs },
-        Property { id: "C06", run: c06::run, subs: c06::subs },
-        Property { id: "C19", run: c19::run, subs: c19::subs },
-    ]
+macro_rules! props {
+    ($($m:ident => $id:literal),* $(,)?) => {
+        $(pub mod $m;)*
+        pub fn registry() -> Vec<Property> {
+            vec![$(Property { id: $id, run: $m::run, subs: $m::subs }),*]
+        }
+    };
+}
+
+props! {
+    c01 => "C01",
+    c02 => "C02",
+    c03 => "C03",
+    c06 => "C06",
+    c07 => "C07",
+    c19 => "C19",
 }
 
 /// property-specific child-process sub-commands
